@@ -175,6 +175,19 @@ package redblacktree
 //@ pred Cur(it) := ite(it.position == 0, 0 - 1, ite(it.position == 2, it.tree.size, it.node.pos))
 //@ pred ItInv(it) := it != nil && it.tree != nil && ShapeInv(it.tree) && 0 <= it.position && it.position <= 2 && (it.position == 1 ==> it.node.tr == it.tree)
 
+//@ -- Node.Size: number of nodes of the subtree = length of its position interval (recursive count); reads only
+//@ func Node.Size
+//@   requires node != nil ==> node.tr != nil && ShapeInv(node.tr)
+//@   decreases ite(node != nil, node.b - node.a + 1, 0)
+//@   modifies nothing
+//@   ensures [C15 C17 C18] (node == nil ==> result == 0) && (node != nil ==> result == node.b - node.a + 1)
+
+//@ -- IteratorAt: a cursor placed on a node of the tree
+//@ func Tree.IteratorAt
+//@   requires ShapeInv(tree) && node != nil && node.tr == tree
+//@   modifies nothing
+//@   ensures [C08 C17 C18] fresh(result) && ItInv(result) && result.tree == tree && Cur(result) == node.pos
+
 //@ func Tree.Iterator
 //@   requires ShapeInv(tree)
 //@   modifies nothing
